@@ -10,8 +10,8 @@
        C++20 is `<<` on signed operands; `C08_shl_cxx20` shows that whenever the C++17 rule gives a value, the C++20
        (modular) rule gives the same value, so theorems proved for the stricter language transfer.
    (c) the two square-root algorithms: the abacus algorithm returns ⌊√(v·2^16)⌋ for ALL v (C13); that std::sqrt
-       differs from it by at most one ulp (`C08_sqrt_algos_full`) is proved here only on kernel-evaluated sample
-       points of the IEEE model (`C08_sqrt_algos_partial`) — PARTIAL.
+       differs from it by at most one ulp is `C08_sqrt_algos`, for ALL v in [0, 2^48), from the accuracy theorem of
+       the std::sqrt back-end over the IEEE model (C13_std_acc).
   What Lean cannot carry: the quantifier over compilers, optimisation levels and evaluation time itself.  It is
   sampled by the check: value legs g++/clang++ × -O0…-O3 × c++17/20/2b × abacus on/off compared with the one model,
   and the constant-evaluation leg (static_asserts derived from the model compiled by both compilers).
@@ -50,19 +50,27 @@ theorem C08_shl_cxx20 (x r v : Int) (h : shl64 x r = .ok v) : shl64_cxx20 x r = 
       · rw [if_neg ho] at h; exact h
   · rw [if_neg hr] at h; exact absurd h (by simp [throw, throwThe, MonadExceptOf.throw])
 
-/-- (c) full statement -/
-def C08_sqrt_algos_full : Prop :=
-  ∀ v : Int, 0 ≤ v → v < 140737488355328 →
-    ∃ r s : Int, (sqrtAbacus v ⇓ r) ∧ (sqrtStd v ⇓ s) ∧ -1 ≤ r - s ∧ r - s ≤ 1
+/-- (c) the two square-root algorithms never differ by more than one unit in the last place -/
+theorem C08_sqrt_algos (v : Int) (h0 : 0 ≤ v) (h1 : v < 281474976710656) :
+    ∃ r s : Int, (sqrtAbacus v ⇓ r) ∧ (sqrtStd v ⇓ s) ∧ -1 ≤ r - s ∧ r - s ≤ 1 := by
+  obtain ⟨r, hr, _, hra⟩ := C13_abacus_real v h0 h1
+  obtain ⟨s, hs, _, hsa⟩ := C13_std_acc v h0 h1
+  refine ⟨r, s, hr, hs, ?_⟩
+  obtain ⟨a1, a2⟩ := abs_lt.mp hra
+  obtain ⟨b1, b2⟩ := abs_lt.mp hsa
+  have h1 : ((r - s : Int) : ℝ) < 2 := by push_cast; linarith
+  have h2 : (-2 : ℝ) < ((r - s : Int) : ℝ) := by push_cast; linarith
+  have h1' : r - s < 2 := by exact_mod_cast h1
+  have h2' : -2 < r - s := by exact_mod_cast h2
+  omega
 
 def sqrtAgree (v : Int) : Bool :=
   match sqrtAbacus v, sqrtStd v with
   | .ok r, .ok s => decide (-1 ≤ r - s ∧ r - s ≤ 1)
   | _, _ => false
 
-/-- (c) on sample points (kernel-evaluated tests of the IEEE model against the proved abacus root; not a proof of
-    `C08_sqrt_algos_full`) -/
-theorem C08_sqrt_algos_partial :
+/-- (c) on sample points (kernel-evaluated tests, consistent with `C08_sqrt_algos`) -/
+theorem C08_sqrt_algos_points :
     sqrtAgree 0 = true ∧ sqrtAgree 1 = true ∧ sqrtAgree 65536 = true ∧ sqrtAgree 131072 = true ∧
     sqrtAgree 4294967296 = true ∧ sqrtAgree 140737488355327 = true ∧ sqrtAgree 70368744177664 = true ∧
     sqrtAgree 12345678901 = true := by
